@@ -417,6 +417,10 @@ def c20(tier):
         jobs.append(twin_job("C20", 3, sh, cap=cap))
     for shape in ("ATnRL", "ATn?RL", "RATnL", "ATRnL", "ATn=aRL", "AgRL"):
         jobs.append(shape_job("C20", shape, required_witness=["end-of-scenario", "a-result-code"]))
+    # newline style of a multi-line answer: the command list after AT+A<LF> and AT+A<CR><LF>
+    jl = list_job("C20", 20, 22, "m2.cap10to11")
+    jl.required_witness = ["end-of-scenario", "five-lines-listed"]
+    jobs.append(jl)
     return with_prop("C20", jobs)
 
 
@@ -442,9 +446,11 @@ def c08(tier):
     return with_prop("C08", jobs)
 
 
-def list_job(prop, capmin, capmax, name, m=2):
+def list_job(prop, capmin, capmax, name, m=2, req=0):
     n = 40 + m * 56
     d = {"N": n, "L": 6, "M": m, "CAPB_MIN": capmin, "CAPB_MAX": capmax}
+    if req:
+        d["REQ"] = req
     return Job("r_list.%s" % name, "r_list.c", d, unwind=max(n, 40 + m * 40) + 2, unwindset=uws(capmax // 2 + 1, m=m), hinted=True, object_bits=12,
                samples=300000, timeout=1500, required_witness=["end-of-scenario"])
 
@@ -453,6 +459,10 @@ def c19(tier):
     jobs = [list_job("C19", 20, 22, "m2.cap10to11"), list_job("C19", 14, 17, "m2.cap7to8")]
     jobs[0].required_witness = ["end-of-scenario", "five-lines-listed", "a-disabled-command-or-group"]
     jobs[1].required_witness = ["end-of-scenario", "line-does-not-fit"]
+    # the request comes from the LAST command: the first command / first group may then be disabled
+    jr = list_job("C19", 20, 22, "m2.req1.cap10to11", req=1)
+    jr.required_witness = ["end-of-scenario", "a-disabled-command-or-group"]
+    jobs.append(jr)
     if tier == "thorough":
         j3 = list_job("C19", 20, 22, "m3.cap10to11", m=3)
         j3.solver, j3.timeout = "cadical", 5400      # the largest guided run of the property: ~25 min on an idle machine
@@ -504,7 +514,14 @@ def c15(tier):
     # safety half: OK means quiescent (two consecutive calls), for every ring capacity; liveness half: r_line's step bound
     jobs = []
     for rc in ((1, 2) if tier == "quick" else (1, 2, 3, 8)):
-        pairs = default_pairs(tier) if rc == 1 else [(0, u) for u in USTATES] + [(8, 0), (19, 0), (17, 0), (4, 0)]
+        if rc == 1:
+            pairs = default_pairs("quick")
+            if tier != "quick":
+                # thorough: every command state against the event FSM idle / waiting for the output / flushing (the two-call jobs
+                # cost twice a one-call job; the full 26 x 11 product with one call is C03's / C11's thorough tier)
+                pairs = pairs + [(s, u) for s in CSTATES for u in (5, 6) if (s, u) not in pairs]
+        else:
+            pairs = [(0, u) for u in USTATES] + [(8, 0), (19, 0), (17, 0), (4, 0)]
         jobs += step_jobs("C15", tier, calls=2, pairs=pairs, ringcaps=(rc,))
     for shape, lines in (("ATnL", 1), ("ATn?L", 1), ("ATn=aL", 1), ("ATLATL", 2), ("gxL", 1)):
         jobs.append(shape_job("C15", shape, lines=lines))
